@@ -1,9 +1,12 @@
 # sourced by bin/check and bin/setup: pinned offline Go environment
 export GOFLAGS=-mod=mod GOPROXY=off GOSUMDB=off GOTOOLCHAIN=local CGO_ENABLED=1
-export VERIF_ROOT=/verif
-HARNESS=/verif/harness
-BUILD=/verif/.build
-mkdir -p "$BUILD" /verif/.work /verif/evidence /verif/replays
+# ROOT is the checkout this script lives in: /verif for the registered
+# commands, a snapshot worktree for background runs
+ROOT="$(cd "$(dirname "${BASH_SOURCE[0]}")/.." && pwd)"
+export VERIF_ROOT="$ROOT"
+HARNESS="$ROOT/harness"
+BUILD="$ROOT/.build"
+mkdir -p "$BUILD" "$ROOT/.work" "$ROOT/evidence" "$ROOT/replays"
 # go.sum is taken from the repository so that module verification never needs the network
 if [ ! -f "$HARNESS/go.sum" ] || ! cmp -s /repo/go.sum "$HARNESS/go.sum"; then
   cp /repo/go.sum "$HARNESS/go.sum"
